@@ -823,8 +823,9 @@ def run_segment(plan, ctx, detail=False, table=None):
                         probe("literal_form_" + ("agrees" if (lit_tb[0] == hdr and lit_tb[1] == rows) else "differs_(front_end_matter)"))
                     if b1 is False and violation is None:
                         # who is responsible? the same program with the parameters kept as typed arguments
-                        agree = typed_form_agrees()
-                        if agree is True:
+                        agree = typed_form_agrees()  # does the typed-argument form give the same rows as bind?
+                        if agree is False:
+                            # the typed-argument form differs from the bound function, which differs from Python:
                             # binding introduced the difference. Is it the known one -- a Qint value compiled at
                             # its minimal width instead of the declared one? Only if some Qint leaf really is
                             # narrower than declared AND the program with *typed* constants prepended agrees
